@@ -839,7 +839,8 @@ def run(ctx):
     # shrinks, the verdict does not change); the first chunk always runs
     order = list(chosen)
     ctx.rng.shuffle(order)
-    budget = float(os.environ.get("VERIF_C11_BUDGET", "0") or 0) or (200 if quick else 720)
+    budget = float(os.environ.get("VERIF_C11_BUDGET", "0") or 0) or (300 if quick else 720)
+    ctx.build_harness("jobsh")
     size = 320 if quick else 1600
     total, done, t0, last = Counter(), [], time.time(), 0.0
     for lo in range(0, len(order), size):
